@@ -1,0 +1,13 @@
+//go:build verif
+
+package lwk
+
+import "time"
+
+// VerifSetResubscribeChan replaces the clock of the periodic header
+// re-subscription with a channel owned by the verification harness. It must
+// be called before StartWatchingTxs.
+func (r *electrumTxWatcher) VerifSetResubscribeChan(c <-chan time.Time) {
+	r.resubscribeTicker.Stop()
+	r.resubscribeTicker = &time.Ticker{C: c}
+}
